@@ -1374,6 +1374,18 @@ class Eval:
                 return ("opt", p, c)
             if m == "unwrap_or_else":
                 return ("call", cid, None, (a0, args[1]), site)
+        if m == "unzip" and a0 is not None:
+            # Option<(A, B)> -> (Option<A>, Option<B>): both present exactly when the pair is
+            if a0[0] == "none":
+                return ("tuple", (("none",), ("none",)))
+            o = self.as_opt(a0)
+            if o is not None:
+                pl = o[1]
+                if pl[0] == "tuple" and len(pl[1]) == 2:
+                    x_, y_ = pl[1]
+                else:
+                    x_, y_ = ("field", pl, "0"), ("field", pl, "1")
+                return ("tuple", (("opt", x_, o[2]), ("opt", y_, o[2])))
         if m in ("map_or", "map_or_else", "unwrap_or", "unwrap_or_default") and a0 is not None:
             # the set of possible results: the mapped payload (when present) and the default (when absent)
             if m == "unwrap_or_default":
